@@ -397,6 +397,13 @@ func (c13Sim) Run(e *Env, ci interface{}) {
 						viol("C13.session", "%s: update failed: %v", name, err)
 					}
 					ndb.Sync()
+					// the session goes on for a while after its first Sync (the file
+					// can be opened by others from now on; they must wait)
+					for j := 0; j < 3; j++ {
+						ndb.FetchFromArchive(0, wt.Timestamp(now-1), wt.Timestamp(now), wt.Timestamp(now))
+						ndb.UpdatePointsForArchive([]wt.Point{{Time: wt.Timestamp(now), Value: wt.Value(2 + j)}}, 0, wt.Timestamp(now))
+					}
+					ndb.Sync()
 					cmu.Lock()
 					cheld = false
 					cmu.Unlock()
